@@ -153,7 +153,7 @@ func TestC12(t *testing.T) {
 				if err := c.send(wire); err != nil {
 					V.HarnessError(rt, "send: %v", err)
 				}
-				rs, err := s.in.settle(c.send, 1)
+				rs, err := s.in.settle(c.sendStrict, 1)
 				if _, lost := err.(labLost); lost {
 					failf(rt, "%v\nhistory: %v", err, hist)
 				} else if err != nil {
@@ -256,7 +256,7 @@ func TestC12(t *testing.T) {
 				if err := c.send([]byte(wire)); err != nil {
 					V.HarnessError(rt, "send: %v", err)
 				}
-				rs, err := s.in.settle(c.send, 1)
+				rs, err := s.in.settle(c.sendStrict, 1)
 				if _, lost := err.(labLost); lost {
 					failf(rt, "%v\nhistory: %v", err, hist)
 				} else if err != nil {
@@ -293,7 +293,7 @@ func TestC12(t *testing.T) {
 					if err := c.send(wire); err != nil {
 						V.HarnessError(rt, "send: %v", err)
 					}
-					rs, err := s.in.settle(c.send, 1)
+					rs, err := s.in.settle(c.sendStrict, 1)
 					if _, lost := err.(labLost); lost {
 						failf(rt, "%v\nhistory: %v", err, hist)
 					} else if err != nil {
@@ -387,7 +387,7 @@ func c12Idle(idle time.Duration) string {
 		if err := c.send(wire); err != nil {
 			return "harness: send: " + err.Error()
 		}
-		rs, err := s.in.settle(c.send, 1)
+		rs, err := s.in.settle(c.sendStrict, 1)
 		if err != nil {
 			return fmt.Sprintf("idle scenario: %v", err)
 		}
